@@ -222,10 +222,15 @@ static int run_varint(uint64_t seed, long nrandom) {
 
 // ------------------------------------------------------------------------------------------ coders (class level)
 struct BitOp { int k; uint32_t v; };
+// reuse: the case runs on ONE encoder and ONE decoder object per coder class that have coded every earlier reuse case (StartEncoding / StartDecoding
+// begin a new sequence; nothing of the previous one may survive)
 template <class Enc, class Dec>
-static void coder_case(const char *name, const std::vector<BitOp> &ops, bool log_bytes) {
+static void coder_case(const char *name, const std::vector<BitOp> &ops, bool log_bytes, bool reuse = false) {
   EncoderBuffer eb;
-  Enc enc;
+  static Enc reused_enc;
+  static Dec reused_dec;
+  Enc fresh_enc;
+  Enc &enc = reuse ? reused_enc : fresh_enc;
   enc.StartEncoding();
   for (auto &o : ops) {
     if (o.k == 0) enc.EncodeBit(o.v & 1);
@@ -238,7 +243,8 @@ static void coder_case(const char *name, const std::vector<BitOp> &ops, bool log
   DecoderBuffer db;
   db.Init(eb.data(), eb.size());
   db.set_bitstream_version(0x0202);
-  Dec dec;
+  Dec fresh_dec;
+  Dec &dec = reuse ? reused_dec : fresh_dec;
   const bool startok = dec.StartDecoding(&db);
   std::vector<int> kin, in_hi, in_lo, out_hi, out_lo;
   for (auto &o : ops) {
@@ -269,7 +275,8 @@ static int run_coders(uint64_t seed, long ncases) {
     const int bias = r.range(0, 8);  // probability of a one bit in 1/8
     const bool bits_only = r.coin(1, 3);
     const int coder = r.range(0, 4);
-    const int maxk = coder == 4 ? 18 : 32;   // symbol coder: every value becomes an entropy-coded symbol (wide values: see F6)
+    const int maxk = 32;
+    const bool reuse = r.coin();
     long total_bits = 0;
     for (long i = 0; i < n; ++i) {
       BitOp o;
@@ -278,17 +285,18 @@ static int run_coders(uint64_t seed, long ncases) {
       const int nb = o.k == 0 ? 1 : o.k;
       for (int b = 0; b < nb; ++b) v |= (uint32_t)(r.range(0, 7) < bias) << b;
       if (r.coin(1, 16)) v = nb == 32 ? 0xFFFFFFFFu : ((1u << nb) - 1);
+      if (coder == 4) v &= 0x7FFFFFFFu;      // symbol coder: every value becomes an entropy-coded symbol; values from 2^31 up are finding F6b (wide mode of drv_c17)
       o.v = v;
       total_bits += nb;
       ops.push_back(o);
     }
     const bool small = total_bits <= 96;
     switch (coder) {
-      case 0: coder_case<RAnsBitEncoder, RAnsBitDecoder>("rans", ops, small); break;
-      case 1: coder_case<AdaptiveRAnsBitEncoder, AdaptiveRAnsBitDecoder>("adaptive", ops, false); break;
-      case 2: coder_case<DirectBitEncoder, DirectBitDecoder>("direct", ops, small); break;
-      case 3: coder_case<FoldedBit32Encoder<RAnsBitEncoder>, FoldedBit32Decoder<RAnsBitDecoder>>("folded", ops, false); break;
-      default: if (ops.empty()) ops.push_back({1, 1}); coder_case<SymbolBitEncoder, SymbolBitDecoder>("symbol", ops, false); break;
+      case 0: coder_case<RAnsBitEncoder, RAnsBitDecoder>("rans", ops, small, reuse); break;
+      case 1: coder_case<AdaptiveRAnsBitEncoder, AdaptiveRAnsBitDecoder>("adaptive", ops, false, reuse); break;
+      case 2: coder_case<DirectBitEncoder, DirectBitDecoder>("direct", ops, small, reuse); break;
+      case 3: coder_case<FoldedBit32Encoder<RAnsBitEncoder>, FoldedBit32Decoder<RAnsBitDecoder>>("folded", ops, false, reuse); break;
+      default: if (ops.empty()) ops.push_back({1, 1}); coder_case<SymbolBitEncoder, SymbolBitDecoder>("symbol", ops, false, reuse); break;
     }
   }
   return 0;
@@ -432,6 +440,21 @@ static int sweep_buffer() {
         uint8_t byte;
         if (db.Decode(&byte)) ++bad;     // nothing may be left to read
       }
+  // typed reads and varints behind the end: after Advance() to or beyond the last byte every Decode<T>, Peek<T> and DecodeVarint fails and hands
+  // out nothing (the buffer is an exact-size heap block: ASan sees a read outside it)
+  for (int size : {1, 4, 9, 64})
+    for (long adv : {(long)size, (long)size + 1, (long)size + 7, (long)size + 4096}) {
+      std::vector<char> exact((size_t)size, (char)0x5A);
+      DecoderBuffer db;
+      db.Init(exact.data(), exact.size());
+      db.set_bitstream_version(0x0202);
+      db.Advance(adv);
+      uint8_t a = 0; uint16_t b = 0; uint32_t c = 0; uint64_t d = 0;
+      if (db.Decode(&a)) ++bad; if (db.Decode(&b)) ++bad; if (db.Decode(&c)) ++bad; if (db.Decode(&d)) ++bad; if (db.Peek(&c)) ++bad;
+      uint32_t v32 = 0; uint64_t v64 = 0;
+      if (DecodeVarint(&v32, &db)) ++bad; if (DecodeVarint(&v64, &db)) ++bad;
+      reads += 7;
+    }
   out.begin("PastEnd").s("coder", "buffer").b("has_end", true).b("first_ok", true).i("nonzero", bad).i("reads", reads).end();
   return 0;
 }
